@@ -27,6 +27,13 @@ def run(ctx):
         check_compose(ctx, F, A)
         check_adapters(ctx, F, A)
         check_sources(ctx, F, A)
+        # io::Read source and end-of-input signalling: the decoder-reader rules of C11 are necessary here as well
+        from . import c11
+        ctx.rule("R-C11-EXACT1", "(shared with C11) IoByteSource reads exactly one byte per call through read_exact (std retries Interrupted), so an "
+                                 "io::Read source yields the same bytes as a slice")
+        ctx.rule("R-C11-NONE", "(shared with C11) DecoderReader::next returns None exactly for end of input with nothing pending and forwards everything else")
+        c11.check_io_source(ctx, F, A)
+        c11.check_next(ctx, F, A)
         from .decoder import Anchors, check_final_reset, NOD
         an = Anchors(F)
         A.invariant(NOD)
